@@ -578,6 +578,21 @@ func genLex(stream string, seed uint64, n int) []GenCase {
 		add("return "+num+";", "", "", []string{"tokens", "ast"}, "number-literal")
 		add("x = "+num+"; return x + 0;", "", "", nil, "number-literal")
 	}
+	// integer literals are decimal whatever they look like: leading zeros, digits 8 and 9 after a zero
+	for _, p := range [][2]string{{"0", "0"}, {"00", "0"}, {"007", "7"}, {"010", "10"}, {"08", "8"}, {"09", "9"}, {"0755", "755"}, {"0777", "777"},
+		{"012345", "12345"}, {"0019", "19"}, {"100", "100"}, {"000000000000000000001", "1"}, {"0100", "100"}, {"077", "77"}, {"0089", "89"}} {
+		add("return "+p[0]+";", "int-"+p[0], "expectint:"+p[1], []string{"tokens", "ast"}, "number-literal", "leading-zero")
+		add("x = "+p[0]+"; return x + 0;", "int2-"+p[0], "expectint:"+p[1], nil, "number-literal", "leading-zero")
+	}
+	for i := 0; i < n/8; i++ {
+		v := r.Intn(100000)
+		lit := strings.Repeat("0", 1+r.Intn(3)) + fmt.Sprint(v)
+		add("return "+lit+";", fmt.Sprintf("intz-%d", i), "expectint:"+fmt.Sprint(v), []string{"tokens"}, "number-literal", "leading-zero")
+	}
+	// things that look like numbers in other notations are not number literals
+	for _, s := range []string{"0x10", "0b11", "0o17", "1_000", "1e3", "0x", "1.", ".5", "1..2", "1.2.3", "0.5.", "00.5", "1__0", "0_1"} {
+		add("return "+s+";", "", "", []string{"tokens"}, "number-lookalike")
+	}
 	for i := 0; i < n/4; i++ {
 		num := fmt.Sprintf("%d.%0*d", r.Intn(100000), 1+r.Intn(12), r.Intn(1000000))
 		add("return "+num+";", "", "", []string{"tokens", "ast"}, "number-literal")
